@@ -233,3 +233,27 @@ def shrink(c):
                 g2 = [list(r) for r in g]
                 g2[i][j] = 0
                 yield dict(c, init=g2)
+
+
+# ------------------------------------------------------------------ source tie (appended; harness/translate.py)
+# pre(): regenerate coq/gen/GenFuns.v from the Python source of the tree under test and, if it changed, re-prove
+# GenProps/GenFunsEquivC14.v, GenProps/C14Src.v and Properties/C14.v (theorem C14_source_tie) by hand.
+# extra_checks(): report a failed translation / equivalence proof (theorem names, translator or coqc error).
+from harness import translate as _translate
+_prev_pre = globals().get('pre')
+_prev_extra_checks = globals().get('extra_checks')
+TRUSTED = list(globals().get('TRUSTED', [])) + [_translate.TRUSTED_NOTE]
+NOTES = list(globals().get('NOTES', [])) + [
+    'coq/gen/GenFuns.v is regenerated from the Python source at the start of every run; theorem C14_source_tie proves '
+    'the regenerated definitions equal to the hand-written model for all inputs']
+
+
+def pre(ctx):
+    if _prev_pre is not None:
+        _prev_pre(ctx)
+    _translate.pre_hook(ctx, 'C14')
+
+
+def extra_checks(ctx):
+    out = list(_prev_extra_checks(ctx)) if _prev_extra_checks is not None else []
+    return out + _translate.extra_hook(ctx, 'C14')
